@@ -1101,3 +1101,23 @@ M('C03', 'block operator in-place arm assumes row-sorted storage', 'odl/operator
 MA('C03', 'block operator forgets to clear empty rows', 'odl/operator/pspace_ops.py',
    'ProductSpaceOperator._call', 'out[i].set_zero()', 'pass',
    'ProductSpaceOperator._call')
+DOPF = 'odl/operator/default_ops.py'
+M('C05', 'ComplexEmbedding adjoint built from the conjugate scalar', DOPF,
+  """                return (self.scalar.real * RealPart(self.range) +
+                        self.scalar.imag * ImagPart(self.range))""",
+  """                return (self.scalar.real * RealPart(self.range) -
+                        self.scalar.imag * ImagPart(self.range))""",
+  'ComplexEmbedding[R,scalar=a+bj]')
+MA('C05', 'RealPart adjoint maps from the domain (regression)', DOPF,
+   'RealPart.adjoint', 'return ComplexEmbedding(self.range, scalar=1)',
+   'return ComplexEmbedding(self.domain, scalar=1)', 'RealPart[C]')
+MA('C05', 'MultiplyOperator adjoint on complex spaces forgets conj', DOPF,
+   'MultiplyOperator.adjoint',
+   'return MultiplyOperator(np.conj(self.multiplicand), domain=self.range, range=self.domain)',
+   'return MultiplyOperator(self.multiplicand, domain=self.range, range=self.domain)',
+   'MultiplyOperator[C]')
+MA('C05', 'InnerProductOperator adjoint over the wrong field', DOPF,
+   'InnerProductOperator.adjoint',
+   'return MultiplyOperator(self.vector, self.vector.space.field)',
+   'return MultiplyOperator(self.vector.conj(), self.vector.space.field)',
+   'InnerProductOperator[C]')
